@@ -203,7 +203,7 @@ class C26(Spec):
             cases.append({'comp': 'balance_rhs_kwargs', 'rhs': jq(dy(rng)), 'lhs': jq(dy(rng))})
             cases.append({'comp': 'self_product', 'which': 'dot', 'x': [jq(dy(rng)) for _ in range(rng.choice([1, 2, 3]))]})
             cases.append({'comp': 'self_product', 'which': 'cross', 'x': [jq(dy(rng)) for _ in range(3)]})
-        cases += [gen_spline(rng) for _ in range(50 if tier == 'quick' else 500)]
+        cases += [gen_spline(rng) for _ in range(40 if tier == 'quick' else 500)]
         return cases
 
     def search_gen(self, tier, rng):
